@@ -28,7 +28,9 @@ echo "clean_demo_rc=$CLEAN suite_rc=$SUITE patched_demo_rc=$DEMO"
 echo "== quick check in /repo with the patch"
 cd /repo && git status --short | grep -v '^??' && { echo "/repo not clean"; exit 4; }
 git apply $DST/patch.diff || { echo "PATCH DOES NOT APPLY TO /repo HEAD"; exit 3; }
-cd /verif && ./check $ID quick > $DST/quick_output.txt 2>&1; RC=$?
+cd /verif && cp evidence/$ID.json /verif/.build/evidence-$ID.keep 2>/dev/null   # evidence must describe runs on the unchanged tree
+./check $ID quick > $DST/quick_output.txt 2>&1; RC=$?
+cp /verif/.build/evidence-$ID.keep evidence/$ID.json 2>/dev/null
 git -C /repo apply -R $DST/patch.diff || git -C /repo checkout -- .
 head -12 $DST/quick_output.txt | cut -c1-400
 echo "quick_check_rc=$RC"
